@@ -24,7 +24,6 @@ import nfc.clf
 
 import math
 import time
-import itertools
 from binascii import hexlify
 from struct import pack, unpack
 
@@ -333,8 +332,7 @@ class Type3Tag(nfc.tag.Tag):
         last_data = None
         same_data = 0
 
-        for i in itertools.count():  # pragma: no branch
-            assert i < 0x10000
+        for i in range(0x10000):  # a block number has 16 bit
             try:
                 this_data = self.read_without_encryption([sc], [BlockCode(i)])
             except Type3TagCommandError:
